@@ -60,6 +60,7 @@ let table : (string * (z list -> z)) list = [
   ("tree", judge_tree);
   ("textread", judge_textread);
   ("textwrite", judge_textwrite);
+  ("rel", judge_rel);
 ]
 
 let () =
